@@ -5129,8 +5129,8 @@ elements: dict[str, tuple[str, int]] = {
 modifiers: dict[str, str] = {
     "&": (
         "stack.append(ctx.register)\n"
-        "ctx.register = safe_apply(function_A, "
-        "pop(stack, function_A.arity, ctx), ctx=ctx)\n"
+        "arguments = wrapify(stack, function_A.arity, ctx=ctx)\n"
+        "ctx.register = safe_apply(function_A, *(arguments[::-1]), ctx=ctx)\n"
     ),
     "v": (
         "arguments = wrapify(stack, function_A.arity, ctx=ctx)\n"
